@@ -1,2 +1,674 @@
-// body of `mod verif_hx` in daemon/src/event/export.rs
+// Correspondence harness for daemon/src/event/export.rs (property C09).
+// Included as the body of `event::export::verif_hx` under
+// cfg(all(test, osrg_rustybgp_verif)); private items of export.rs and of
+// event/mod.rs are reachable through `use super::*;`.
+//
+// One case = one call of a real function; the observation is what that
+// function returned / handed to the sink, printed as nested integers in the
+// shape of coq/Model/Export.v `run_case`.
+use super::*;
+
+#[allow(dead_code)]
+mod val {
+    include!(concat!(env!("VERIF_HX_DIR"), "/common/val.rs"));
+}
+use val::Val;
+
+// ---- decoding of case data -------------------------------------------------
+
+// attribute: [code, flags, kind, payload]; kind 0 = Val(u32), 1 = Bin(bytes),
+// 2 = Opaque(bytes).  Kinds 0/1 go through the public constructors, which
+// choose the canonical flags themselves (the case carries the same value so
+// that both sides print it).
+fn attr_of(v: &Val) -> packet::Attribute {
+    let code = v.at(0).u8();
+    let flags = v.at(1).u8();
+    let kind = v.at(2).int();
+    if kind == 2 {
+        return packet::Attribute::new_opaque(code, flags, v.at(3).bytes());
+    }
+    if packet::Attribute::canonical_flags(code) != Some(flags) {
+        // recognised attribute with non-canonical flag bits (Partial, Extended
+        // Length, the unused low bits): only the UPDATE decoder produces these
+        return wire_attr(code, flags, kind, v.at(3));
+    }
+    match kind {
+        0 => packet::Attribute::new_with_value(code, v.at(3).u32())
+            .expect("verif: generator uses known codes for Val attributes"),
+        1 => packet::Attribute::new_with_bin(code, v.at(3).bytes())
+            .expect("verif: generator uses known codes for Bin attributes"),
+        k => panic!("verif: bad attribute kind {}", k),
+    }
+}
+
+// one attribute through the real decoder: an UPDATE without NLRI that carries it
+fn wire_attr(code: u8, flags: u8, kind: i128, payload: &Val) -> packet::Attribute {
+    let value: Vec<u8> = if kind == 0 {
+        if code == packet::Attribute::ORIGIN {
+            vec![payload.u8()]
+        } else {
+            payload.u32().to_be_bytes().to_vec()
+        }
+    } else {
+        payload.bytes()
+    };
+    let mut a = vec![flags, code];
+    if flags & 0x10 != 0 {
+        a.extend_from_slice(&(value.len() as u16).to_be_bytes());
+    } else {
+        a.push(value.len() as u8);
+    }
+    a.extend_from_slice(&value);
+    let total = 19 + 2 + 2 + a.len();
+    let mut m = vec![0xffu8; 16];
+    m.extend_from_slice(&(total as u16).to_be_bytes());
+    m.push(2);
+    m.extend_from_slice(&[0, 0]);
+    m.extend_from_slice(&(a.len() as u16).to_be_bytes());
+    m.extend_from_slice(&a);
+    let mut codec = bgp::PeerCodec::new();
+    match codec.parse_message(&m) {
+        Ok(bgp::ParsedMessage::Update(bgp::ParsedUpdate::Routes { attrs, .. })) if attrs.len() == 1 => {
+            attrs.into_iter().next().unwrap()
+        }
+        _ => panic!("verif: the decoder did not keep attribute {} flags {:#x}", code, flags),
+    }
+}
+
+fn attrs_of(v: &Val) -> Arc<Vec<packet::Attribute>> {
+    Arc::new(v.list().iter().map(attr_of).collect())
+}
+
+fn attr_val(a: &packet::Attribute) -> Val {
+    let (kind, payload) = if let Some(x) = a.value() {
+        (0u8, Val::n(x))
+    } else if a.is_opaque() {
+        (2u8, Val::from_bytes(a.binary().unwrap()))
+    } else {
+        (1u8, Val::from_bytes(a.binary().unwrap()))
+    };
+    Val::L(vec![Val::n(a.code()), Val::n(a.flags()), Val::n(kind), payload])
+}
+
+fn attrs_val(a: &[packet::Attribute]) -> Val {
+    Val::L(a.iter().map(attr_val).collect())
+}
+
+fn v4_of(b: &[u8]) -> Ipv4Addr {
+    Ipv4Addr::new(b[0], b[1], b[2], b[3])
+}
+fn v6_of(b: &[u8]) -> Ipv6Addr {
+    let mut o = [0u8; 16];
+    o.copy_from_slice(b);
+    Ipv6Addr::from(o)
+}
+
+// ip: [0, 4 bytes] | [1, 16 bytes]
+fn ip_of(v: &Val) -> IpAddr {
+    let b = v.at(1).bytes();
+    match v.at(0).int() {
+        0 => IpAddr::V4(v4_of(&b)),
+        _ => IpAddr::V6(v6_of(&b)),
+    }
+}
+
+// nexthop: [0, a4] | [1, a16] | [2, a16, ll16]
+fn nh_of(v: &Val) -> bgp::Nexthop {
+    match v.at(0).int() {
+        0 => bgp::Nexthop::V4(v4_of(&v.at(1).bytes())),
+        1 => bgp::Nexthop::V6(v6_of(&v.at(1).bytes())),
+        _ => bgp::Nexthop::V6LinkLocal(v6_of(&v.at(1).bytes()), v6_of(&v.at(2).bytes())),
+    }
+}
+fn nh_opt_of(v: &Val) -> Option<bgp::Nexthop> {
+    v.list().first().map(nh_of)
+}
+fn nh_val(n: &bgp::Nexthop) -> Val {
+    match n {
+        bgp::Nexthop::V4(a) => Val::L(vec![Val::n(0u8), Val::from_bytes(&a.octets())]),
+        bgp::Nexthop::V6(a) => Val::L(vec![Val::n(1u8), Val::from_bytes(&a.octets())]),
+        bgp::Nexthop::V6LinkLocal(a, ll) => Val::L(vec![
+            Val::n(2u8),
+            Val::from_bytes(&a.octets()),
+            Val::from_bytes(&ll.octets()),
+        ]),
+    }
+}
+fn nh_opt_val(n: &Option<bgp::Nexthop>) -> Val {
+    Val::opt(n.as_ref().map(nh_val))
+}
+
+fn role_of(v: &Val) -> PeerRole {
+    match v.int() {
+        0 => PeerRole::Ebgp,
+        1 => PeerRole::RsClient,
+        2 => PeerRole::Ibgp,
+        3 => PeerRole::IbgpRrClient,
+        4 => PeerRole::ConfedEbgp,
+        r => panic!("verif: bad role {}", r),
+    }
+}
+
+// ectx: [role, local_asn, local_addr(ip), link_addr(opt 16 bytes), confed_id]
+fn ctx_of(v: &Val) -> PeerExportContext {
+    PeerExportContext {
+        role: role_of(v.at(0)),
+        local_asn: v.at(1).u32(),
+        local_addr: ip_of(v.at(2)),
+        link_addr: v.at(3).list().first().map(|b| v6_of(&b.bytes())),
+        confederation_id: v.at(4).u32(),
+    }
+}
+
+// source: [0] local | [1] kernel | [2, raddr(ip), rasn, lasn, rid, role, llgr_stale]
+fn src_of(v: &Val) -> Arc<table::Source> {
+    match v.at(0).int() {
+        0 => table::Source::local(),
+        1 => table::Source::kernel(),
+        _ => {
+            let s = table::Source::new(
+                ip_of(v.at(1)),
+                IpAddr::V4(Ipv4Addr::new(127, 0, 0, 1)),
+                v.at(2).u32(),
+                v.at(3).u32(),
+                Ipv4Addr::from(v.at(4).u32()),
+                role_of(v.at(5)),
+            );
+            if v.at(6).bool() {
+                s.mark_llgr_stale();
+            }
+            Arc::new(s)
+        }
+    }
+}
+
+fn src_val(s: &table::Source) -> Val {
+    if s.is_local() {
+        Val::L(vec![Val::n(0u8)])
+    } else if s.is_kernel() {
+        Val::L(vec![Val::n(1u8)])
+    } else {
+        let b = match s.remote_addr {
+            IpAddr::V4(a) => a.octets().to_vec(),
+            IpAddr::V6(a) => a.octets().to_vec(),
+        };
+        Val::L(vec![Val::n(2u8), Val::from_bytes(&b)])
+    }
+}
+
+fn cid_of(v: &Val) -> Option<Ipv4Addr> {
+    v.list().first().map(|x| Ipv4Addr::from(x.u32()))
+}
+
+fn family_of(v: &Val) -> Family {
+    let f = v.u32();
+    Family::new((f >> 16) as u16, (f & 0xff) as u8)
+}
+
+// ---- recording sink -------------------------------------------------------
+
+struct RecSink {
+    ops: Vec<Val>,
+}
+
+impl NlriSink for RecSink {
+    fn reach(
+        &mut self,
+        dest_id: u32,
+        _nlri: packet::Nlri,
+        path_id: u32,
+        nexthop: Option<bgp::Nexthop>,
+        attr: Arc<Vec<packet::Attribute>>,
+        source: &Arc<table::Source>,
+    ) {
+        self.ops.push(Val::L(vec![
+            Val::n(1u8),
+            Val::n(dest_id),
+            Val::n(path_id),
+            nh_opt_val(&nexthop),
+            attrs_val(&attr),
+            src_val(source),
+        ]));
+    }
+    fn unreach(&mut self, dest_id: u32, _nlri: packet::Nlri, path_id: u32) {
+        self.ops
+            .push(Val::L(vec![Val::n(0u8), Val::n(dest_id), Val::n(path_id)]));
+    }
+}
+
+// hash-set iteration order of the Add-Path withdrawals is unspecified: sort
+// the leading run of unreach operations by path id
+fn canon_ops(mut ops: Vec<Val>) -> Vec<Val> {
+    let n = ops
+        .iter()
+        .take_while(|o| o.at(0).int() == 0)
+        .count();
+    ops[..n].sort_by_key(|o| (o.at(1).int(), o.at(2).int()));
+    ops
+}
+
+
+fn disp_of(v: &Val) -> table::Disposition {
+    match v.int() {
+        0 => table::Disposition::Pass,
+        1 => table::Disposition::Accept,
+        _ => table::Disposition::Reject,
+    }
+}
+
+fn policy_of(v: &Val) -> table::PolicyAssignment {
+    let nexthop = v.at(0).list().first().map(|a| match a.at(0).int() {
+        0 => table::NexthopAction::Address(ip_of(a.at(1))),
+        1 => table::NexthopAction::PeerSelf,
+        2 => table::NexthopAction::PeerAddress,
+        _ => table::NexthopAction::Unchanged,
+    });
+    let med = v.at(1).list().first().map(|a| table::MedAction {
+        action_type: if a.at(0).int() == 0 {
+            table::MedActionType::Mod
+        } else {
+            table::MedActionType::Replace
+        },
+        value: a.at(1).int() as i64,
+    });
+    let stmt = table::Statement {
+        name: Arc::from("verif-stmt"),
+        conditions: vec![],
+        disposition: match disp_of(v.at(2)) {
+            table::Disposition::Pass => None,
+            d => Some(d),
+        },
+        actions: table::Actions {
+            nexthop,
+            community: None,
+            local_pref: None,
+            med,
+            as_prepend: v.list().get(4).and_then(|o| o.list().first()).map(|a| table::AsPrependAction {
+                asn: a.at(0).u32(),
+                repeat: a.at(1).u32(),
+                use_left_most: a.at(2).bool(),
+            }),
+            ext_community: None,
+            large_community: None,
+            origin: None,
+        },
+    };
+    let pol = table::Policy {
+        name: Arc::from("verif-policy"),
+        statements: vec![Arc::new(stmt)],
+    };
+    table::PolicyAssignment {
+        name: Arc::from("verif-assignment"),
+        disposition: disp_of(v.at(3)),
+        policies: vec![Arc::new(pol)],
+        needs_rpki: false,
+    }
+}
+
+fn change_of(ch: &Val) -> table::NlriChange {
+    let paths: Vec<table::Path> = ch
+        .at(5)
+        .list()
+        .iter()
+        .map(|p| table::Path {
+            local_path_id: p.at(0).u32(),
+            source: src_of(p.at(1)),
+            nexthop: nh_opt_of(p.at(2)),
+            attr: attrs_of(p.at(3)),
+        })
+        .collect();
+    table::NlriChange {
+        family: family_of(ch.at(0)),
+        net: "10.9.0.0/24".parse().unwrap(),
+        dest_id: ch.at(1).u32(),
+        best_changed: ch.at(2).bool(),
+        any_changed: ch.at(3).bool(),
+        replaced_path_id: ch.at(4).list().first().map(|x| x.u32()),
+        current_paths: Arc::new(paths),
+    }
+}
+
+// [13, ctx, emax, raddr, cid, family, [change..], probe]: a history through one ExportMap
+fn run_history(case: &Val) -> Val {
+    let ctx = ctx_of(case.at(1));
+    let emax = case.at(2).usize();
+    let raddr = ip_of(case.at(3));
+    let cid = cid_of(case.at(4));
+    let family = family_of(case.at(5));
+    let mut map = if emax == 1 {
+        ExportMap::new([])
+    } else {
+        ExportMap::new([family])
+    };
+    let mut all: Vec<Val> = Vec::new();
+    for ch in case.at(6).list() {
+        let update = change_of(ch);
+        let mut sink = RecSink { ops: Vec::new() };
+        process_nlri_change(
+            &update, emax, raddr, &mut map, &mut sink, &ctx, None, cid, None, None, None,
+        );
+        all.extend(canon_ops(sink.ops));
+    }
+    let probe: Vec<Val> = case
+        .at(7)
+        .list()
+        .iter()
+        .map(|d| {
+            let mut ids: Vec<u32> = map.sent_path_ids(family, d.u32()).into_iter().collect();
+            ids.sort();
+            Val::L(ids.into_iter().map(Val::n).collect())
+        })
+        .collect();
+    Val::L(vec![Val::L(all), Val::L(probe)])
+}
+
+fn run_process(case: &Val, policy: Option<&table::PolicyAssignment>) -> Val {
+    run_process_rtc(case, policy, None)
+}
+
+fn run_process_rtc(
+    case: &Val,
+    policy: Option<&table::PolicyAssignment>,
+    rtc: Option<&crate::rtc::RtcFilter>,
+) -> Val {
+    let ctx = ctx_of(case.at(1));
+    let emax = case.at(2).usize();
+    let raddr = ip_of(case.at(3));
+    let cid = cid_of(case.at(4));
+    let ch = case.at(5);
+    let family = family_of(ch.at(0));
+    let dest_id = ch.at(1).u32();
+    let paths: Vec<table::Path> = ch
+        .at(5)
+        .list()
+        .iter()
+        .map(|p| table::Path {
+            local_path_id: p.at(0).u32(),
+            source: src_of(p.at(1)),
+            nexthop: nh_opt_of(p.at(2)),
+            attr: attrs_of(p.at(3)),
+        })
+        .collect();
+    let update = table::NlriChange {
+        family,
+        net: "10.9.0.0/24".parse().unwrap(),
+        dest_id,
+        best_changed: ch.at(2).bool(),
+        any_changed: ch.at(3).bool(),
+        replaced_path_id: ch.at(4).list().first().map(|x| x.u32()),
+        current_paths: Arc::new(paths),
+    };
+    let em = case.at(6);
+    let mut map = match em.at(0).int() {
+        0 => ExportMap::new([]),
+        1 => {
+            let mut m = ExportMap::new([]);
+            // a Plain family map exists only after a first mark_sent
+            let ds = em.at(1).list();
+            if ds.is_empty() {
+                m.mark_sent(family, 0xffff_fff0, 0);
+                m.mark_withdrawn(family, 0xffff_fff0, 0);
+            }
+            for d in ds {
+                m.mark_sent(family, d.u32(), 0);
+            }
+            m
+        }
+        _ => {
+            let mut m = ExportMap::new([family]);
+            for kv in em.at(1).list() {
+                for pid in kv.at(1).list() {
+                    m.mark_sent(family, kv.at(0).u32(), pid.u32());
+                }
+            }
+            m
+        }
+    };
+    let mut sink = RecSink { ops: Vec::new() };
+    process_nlri_change(
+        &update, emax, raddr, &mut map, &mut sink, &ctx, policy, cid, None, None, rtc,
+    );
+    let probe: Vec<Val> = case
+        .at(7)
+        .list()
+        .iter()
+        .map(|d| {
+            let mut ids: Vec<u32> =
+                map.sent_path_ids(family, d.u32()).into_iter().collect();
+            ids.sort();
+            Val::L(ids.into_iter().map(Val::n).collect())
+        })
+        .collect();
+    Val::L(vec![Val::L(canon_ops(sink.ops)), Val::L(probe)])
+
+}
+
+// ---- cases ------------------------------------------------------------------
+
+fn as_path_attr(a: &Val) -> packet::Attribute {
+    attr_of(a)
+}
+
+fn run_case(case: &Val) -> Val {
+    let tag = case.at(0).int();
+    match tag {
+        // [0, ty, asn, attr]
+        0 => {
+            let a = as_path_attr(case.at(3));
+            let asn = case.at(2).u32();
+            let r = if case.at(1).int() == 3 {
+                a.as_path_prepend_confed(asn)
+            } else {
+                a.as_path_prepend(asn)
+            };
+            attr_val(&r)
+        }
+        // [1, attr]
+        1 => attr_val(&as_path_attr(case.at(1)).as_path_strip_confed()),
+        // [2, attrs, local_asn, confed]
+        2 => Val::b(is_as_loop(
+            &attrs_of(case.at(1)),
+            case.at(2).u32(),
+            case.at(3).u32(),
+        )),
+        // [3, ctx, attrs]
+        3 => attrs_val(&ctx_of(case.at(1)).export_attrs(&attrs_of(case.at(2)))),
+        // [4, ctx, attrs, nh, family, is_local]
+        4 => {
+            let ctx = ctx_of(case.at(1));
+            let mut attrs = attrs_of(case.at(2));
+            let mut nh = nh_opt_of(case.at(3));
+            ctx.pre_policy_defaults(&mut attrs, &mut nh, family_of(case.at(4)), case.at(5).bool());
+            Val::L(vec![attrs_val(&attrs), nh_opt_val(&nh)])
+        }
+        // [5, attrs, rid, cid]
+        5 => attrs_val(&rr_reflect_attrs(
+            &attrs_of(case.at(1)),
+            case.at(2).u32(),
+            Ipv4Addr::from(case.at(3).u32()),
+        )),
+        // [6, attrs]
+        6 => attrs_val(&with_llgr_stale_community(&attrs_of(case.at(1)))),
+        // [7, attrs]
+        7 => attrs_val(&inject_local_pref_if_absent(attrs_of(case.at(1)))),
+        // [8, source, dest_role, cid]
+        8 => {
+            let s = src_of(case.at(1));
+            let r = role_of(case.at(2));
+            Val::L(vec![
+                Val::b(is_ibgp_learned(&s)),
+                Val::b(ibgp_split_horizon_suppress(&s, r, cid_of(case.at(3)))),
+                Val::b(rs_isolation_suppress(&s, r)),
+            ])
+        }
+        // [9, ctx, emax, raddr, cid, change, emap, probe]
+        //   change = [family, dest, best_changed, any_changed, replaced(opt), paths]
+        //   path   = [lpid, source, nh(opt), attrs]
+        //   emap   = [0] | [1, dests] | [2, [[dest, [pids]]..]]
+        9 => run_process(case, None),
+        // [12, ..as 9.., policy]: the same with a real one-statement export policy
+        //   policy = [nh_action(opt), med_action(opt), statement disposition, default disposition, as_prepend(opt)]
+        //   as_prepend = [asn, repeat, use_left_most]
+        //   nh_action = [0, ip] | [1] self | [2] peer | [3] unchanged; med_action = [0, delta] | [1, value]
+        //   disposition: 0 pass, 1 accept, 2 reject
+        12 => {
+            let pa = policy_of(case.at(8));
+            run_process(case, Some(&pa))
+        }
+        13 => run_history(case),
+        // [14, ..as 9.., [accept_all, [rt8..]]]: with a real RtcFilter built by from_paths
+        14 => {
+            let r = case.at(8);
+            let src = Arc::new(table::Source::new(
+                "10.0.0.7".parse().unwrap(),
+                IpAddr::V4(Ipv4Addr::new(127, 0, 0, 1)),
+                65002,
+                65001,
+                Ipv4Addr::new(10, 0, 0, 7),
+                PeerRole::Ebgp,
+            ));
+            let mut paths: Vec<table::SoftResetPath> = Vec::new();
+            let mk = |n: packet::rtc::RtcNlri| -> table::SoftResetPath {
+                (Family::RTC, packet::Nlri::Rtc(n), 0, None, src.clone(), Arc::new(Vec::new()), 0)
+            };
+            if r.at(0).bool() {
+                paths.push(mk(packet::rtc::RtcNlri::wildcard()));
+            }
+            for rt in r.at(1).list() {
+                let mut b = [0u8; 8];
+                b.copy_from_slice(&rt.bytes());
+                paths.push(mk(packet::rtc::RtcNlri {
+                    match_type: packet::rtc::MatchType::ExactMatch { origin_as: 65002, route_target: b },
+                }));
+            }
+            let f = crate::rtc::RtcFilter::from_paths(&paths);
+            run_process_rtc(case, None, Some(&f))
+        }
+        // [10, ctx, router_id, cid, attrs]: the receive path for one reach UPDATE.
+        // run_select skips the message when is_as_loop (that `continue` is glue
+        // replicated here); otherwise PeerSession::rx_update runs for real and the
+        // Loc-RIB is read back.
+        10 => {
+            let ctx = ctx_of(case.at(1));
+            let rid = case.at(2).u32();
+            let cid = cid_of(case.at(3));
+            let attrs = attrs_of(case.at(4));
+            if is_as_loop(&attrs, ctx.local_asn, ctx.confederation_id) {
+                return Val::L(vec![]);
+            }
+            let rt = tokio::runtime::Builder::new_current_thread()
+                .enable_all()
+                .build()
+                .unwrap();
+            rt.block_on(async move {
+                let tables: TableHandle = Arc::new(crate::table_manager::TableManager::new(1));
+                let fsm = crate::fsm::PeerFsm::new(rid, ctx.local_asn, vec![], 90, 0, FnvHashMap::default());
+                let conn_arbiter = Arc::new(std::sync::Mutex::new(ConnArbiter::new(fsm)));
+                let context = Arc::new(std::sync::Mutex::new(PeerContext {
+                    conn_arbiter,
+                    active_connect_cancel_tx: None,
+                    active_connect_join_handle: None,
+                    gr_state: crate::gr::GrState::new(),
+                    gr_restart_timer: None,
+                    llgr_family_timers: FnvHashMap::default(),
+                    rtc_state: crate::rtc::RtcState::new(),
+                    rtc_eor_timer: None,
+                }));
+                let remote: IpAddr = "10.0.0.2".parse().unwrap();
+                let mut s = PeerSession::new_for_test(remote, context, tables.clone());
+                let role = ctx.role;
+                let rasn = if matches!(role, PeerRole::Ibgp | PeerRole::IbgpRrClient) {
+                    ctx.local_asn
+                } else {
+                    65002
+                };
+                s.source.insert(
+                    Family::IPV4,
+                    Arc::new(table::Source::new(
+                        remote,
+                        IpAddr::V4(Ipv4Addr::new(127, 0, 0, 1)),
+                        rasn,
+                        ctx.local_asn,
+                        Ipv4Addr::new(10, 0, 0, 2),
+                        role,
+                    )),
+                );
+                s.export_ctx = ctx;
+                s.local_router_id = Ipv4Addr::from(rid);
+                s.cluster_id = cid;
+                let reach = Some(bgp::ReachNlri {
+                    family: Family::IPV4,
+                    entries: vec![packet::PathNlri::new("10.9.0.0/24".parse().unwrap())],
+                    nexthop: Some(bgp::Nexthop::V4(Ipv4Addr::new(10, 0, 0, 2))),
+                });
+                let exceeded = s.rx_update(reach, None, attrs, 0u32).await;
+                assert!(!exceeded);
+                let changes = tables.collect_loc_rib_paths(Family::IPV4);
+                match changes.first().and_then(|c| c.current_paths.first()) {
+                    None => Val::L(vec![]),
+                    Some(p) => Val::L(vec![attrs_val(&p.attr)]),
+                }
+            })
+        }
+        // [11, ctx, emax, raddr, cid, source, nh, attrs]: a route is inserted into a real
+        // table::Table and exported to one neighbour; then the LLGR period of its
+        // source begins (Table::restale_llgr) and the resulting changes are exported
+        // to the same neighbour.  Observation: the sink operations of the two phases
+        // (dest id and path id are the table's allocation, printed as 1).
+        11 => {
+            let ctx = ctx_of(case.at(1));
+            let emax = case.at(2).usize();
+            let raddr = ip_of(case.at(3));
+            let cid = cid_of(case.at(4));
+            let src = src_of(case.at(5));
+            let nh = nh_opt_of(case.at(6));
+            let attrs = attrs_of(case.at(7));
+            let mut t = table::Table::new(0);
+            let net: packet::Nlri = "10.9.0.0/24".parse().unwrap();
+            let mut map = if emax == 1 {
+                ExportMap::new([])
+            } else {
+                ExportMap::new([Family::IPV4])
+            };
+            let norm = |ops: Vec<Val>| -> Val {
+                Val::L(
+                    canon_ops(ops)
+                        .into_iter()
+                        .map(|o| {
+                            let mut l = o.list().to_vec();
+                            l[1] = Val::n(1u8);
+                            if emax != 1 {
+                                l[2] = Val::n(1u8);
+                            }
+                            Val::L(l)
+                        })
+                        .collect(),
+                )
+            };
+            let mut sink = RecSink { ops: Vec::new() };
+            match t.insert(
+                src.clone(), Family::IPV4, net.clone(), 0, nh, attrs.clone(), Some(attrs), false, false, None, 0,
+            ) {
+                table::InsertResult::Changed(ch) => {
+                    process_nlri_change(&ch, emax, raddr, &mut map, &mut sink, &ctx, None, cid, None, None, None);
+                }
+                _ => panic!("verif: insert into an empty table must change it"),
+            }
+            let ops1 = std::mem::take(&mut sink.ops);
+            for ch in t.restale_llgr(src.remote_addr, Family::IPV4) {
+                process_nlri_change(&ch, emax, raddr, &mut map, &mut sink, &ctx, None, cid, None, None, None);
+            }
+            let ops2 = std::mem::take(&mut sink.ops);
+            Val::L(vec![norm(ops1), norm(ops2)])
+        }
+        t => panic!("verif: unknown case tag {}", t),
+    }
+}
+
+#[test]
+fn verif_export_cases() {
+    val::run_cases(run_case);
+}
+
+// C01 export-level harness (unit u13)
 mod c01 { include!(concat!(env!("VERIF_HX_DIR"), "/daemon/export_c01_hx.rs")); }
